@@ -2501,8 +2501,14 @@ class Engine(object):
             if not self.feasible(sb):
                 continue
             tv = VTuple([idxv, elem]) if enum else elem
+            iterated = sb.heap.get(itv.rid) if mode in ("liststr", "seq") else None
             for sb2 in self.assign(node.target, tv, sb):
                 for s3, (kind, val) in self.exec_block(node.body, sb2):
+                    if iterated is not None and s3.heap.get(itv.rid) is not iterated:
+                        # CPython iterates a list by index against its CURRENT length: a body that appends to / clears the
+                        # list it iterates changes how often the loop runs.  The ghost-prefix model (elements fixed at loop
+                        # entry) does not describe that, so nothing may be concluded from it.
+                        raise OutOfSubset("loop #%s at line %d changes the list it iterates (iteration over a list that is mutated by the loop body is outside the model)" % (k, node.lineno))
                     if kind in (NORMAL, CONTINUE):
                         s3.ghost.update(nxt)
                         self.check_invs(s3, k, spec, "preserve", node.lineno)
